@@ -62,6 +62,20 @@ class StandinProxy:
     return self._call('replay', self.prop, 'quick', seed, cid, json.dumps(fail, default=str), timeout=900)
 
 
+def lean_status(ax, lean_names):
+  if ax.kind != 'math':
+    return ' (assumed %s)' % ('numpy semantics, conformance-sampled' if ax.kind == 'lib' else 'definition of a spec function')
+  if not ax.lean:
+    return ' (math axiom, UNPROVED: no Lean theorem)'
+  if ax.lean.startswith(('Real.', 'Matrix.')):
+    return ' (Mathlib theorem %s)' % ax.lean
+  if ax.lean in lean_names:
+    return ' (Lean theorem %s, accepted)' % ax.lean
+  if ' ' in ax.lean:
+    return ' (%s)' % ax.lean
+  return ' (math axiom, UNPROVED: Lean theorem %s not found in lean/VERIFIED.json)' % ax.lean
+
+
 def write_replay(prop, name, payload):
   d = os.path.join(HERE, 'replays')
   os.makedirs(d, exist_ok=True)
@@ -93,6 +107,39 @@ def main():
   known_hits = []
   undecided = []
   errors = []
+
+  # ---- Lean back end for the mathematical axioms -----------------------------------------------------
+  sys.path.insert(0, os.path.join(HERE, 'lean'))
+  import check as leancheck
+  lean_note = ''
+  if tier == 'thorough':
+    try:
+      r = leancheck.run()
+      bad = [f for f, e in r.items() if not e['accepted']]
+      if bad:
+        print('ERROR: Lean rejected %s' % bad)
+        return 3
+      lean_note = 'Lean re-checked %d lemma files in this run' % len(r)
+    except Exception as e:
+      lean_note = 'Lean run failed: %s' % e
+  lean_names, lean_problems = leancheck.status()
+  if not lean_note:
+    lean_note = 'quick tier: Lean not re-run; lemma file hashes compared with lean/VERIFIED.json (%s)' % ('match' if not lean_problems else '; '.join(lean_problems))
+
+  # ---- conformance sampling of the axioms against the installed numpy (thorough tier) -------------------------
+  conf = None
+  if tier == 'thorough':
+    from npvc import conformance
+    import warnings as _w
+    with _w.catch_warnings():
+      _w.simplefilter('ignore')
+      rep = conformance.run(seed, 40)
+    badax = sorted(k for k, v in rep.items() if v['failures'])
+    conf = dict(axioms=len(rep), sampled=sum(1 for v in rep.values() if v['sampled']), instances=sum(v['sampled'] for v in rep.values()),
+                failing_axioms=badax, not_sampled=sorted(k for k, v in rep.items() if not v['sampled']))
+    if badax:
+      print('ERROR: axioms contradicted by the installed numpy: %s' % badax)
+      return 3
 
   # ---- guards --------------------------------------------------------------------------------------
   if not smt.canary():
@@ -222,12 +269,15 @@ def main():
                     'A-real: floats as mathematical reals', 'A-int64: numpy integers as mathematical integers',
                     'partial correctness only (termination not proved)'] +
                    ['assumed contract on dependency: ' + e for e in assumed] +
-                   ['axiom[%s]: %s%s' % (ax_by_name[a].kind, a, (' (Lean: %s)' % ax_by_name[a].lean) if ax_by_name[a].lean else '')
-                    for a in math_ax if a in ax_by_name],
+                   ['axiom[%s]: %s%s' % (ax_by_name[a].kind, a, lean_status(ax_by_name[a], lean_names))
+                    for a in math_ax if a in ax_by_name] + ['lean: ' + lean_note],
+      unproved_math_axioms=sorted(a for a in math_ax if a in ax_by_name and ax_by_name[a].kind == 'math' and
+                                  'UNPROVED' in lean_status(ax_by_name[a], lean_names)),
       samples=samples or [dict(note='no deductive unit for this property in this tier')],
       known_findings_matched=sorted({k['id'] for k, _ in known_hits}),
       tree_hash=prog.tree_hash(),
       explanation=meta.get('explanation', ''),
+      axiom_conformance=conf or 'thorough tier only',
   )
   if standin:
     cov['bounded_standin'] = dict(label='bounded -- not proved', **{k: v for k, v in standin.items() if k != 'violations'})
